@@ -4,6 +4,7 @@
 From Coq Require Import String Lia Arith DecimalString DecimalPos DecimalN DecimalZ.
 From Coq Require FinFun.
 Require Import Base Mol Text Molfile V3000 Writer.
+Require V2000.
 Require Params.
 
 Local Open Scope list_scope.
@@ -1485,7 +1486,7 @@ Proof.
   rewrite !map_app. cbn [map app]. rewrite tokenize_counts_line. unfold text in *. rewrite HA.
   destruct (bonds m) as [|b bs].
   - cbn [map app]. rewrite <- !app_assoc. reflexivity.
-  - rewrite !map_app. cbn [map app]. rewrite HB. rewrite <- !app_assoc. cbn [app]. rewrite <- !app_assoc. reflexivity.
+  - cbn [map app]. rewrite !map_app. cbn [map app]. rewrite HB. rewrite <- !app_assoc. cbn [app]. rewrite <- !app_assoc. reflexivity.
 Qed.
 
 Lemma to_nat_idx_of_nat : forall n, to_nat_idx (Z.of_N (N.of_nat n)) = ok n.
@@ -1594,3 +1595,233 @@ Proof.
       rewrite !memZ_in; [reflexivity| |]; apply in_map; assumption. }
     rewrite Hchk, Hres. unfold bonds'. rewrite map_map. reflexivity.
 Qed.
+
+(* ------------------------------------------------------------------------------------ *)
+(* 13. the file as one string: "\n".join(lines), then str.splitlines()                   *)
+(* ------------------------------------------------------------------------------------ *)
+
+Definition nolb (l : text) : Prop := Forall (fun c => is_linebreak c = false) l.
+
+Lemma nolb_check : forall l, forallb (fun c => negb (is_linebreak c)) l = true -> nolb l.
+Proof.
+  intros l H. apply Forall_forall. intros c Hc. rewrite forallb_forall in H. apply negb_true_iff, H, Hc.
+Qed.
+
+Lemma spacefree_nolb : forall l, spacefree l -> nolb l.
+Proof.
+  intros l H. eapply Forall_impl; [|exact H]. intros c Hc. unfold is_space in Hc. cbv zeta in Hc.
+  apply orb_false_iff in Hc. destruct Hc as [_ Hc]. exact Hc.
+Qed.
+
+Lemma nolb_app : forall a b, nolb a -> nolb b -> nolb (a ++ b).
+Proof. intros a b Ha Hb. apply Forall_app. split; assumption. Qed.
+
+Lemma nolb_join : forall tl, Forall nolb tl -> nolb (join_with [sp] tl).
+Proof.
+  induction tl as [|a tl IH]; intro H; [constructor|]. inversion H as [|? ? Ha Ht]; subst.
+  destruct tl as [|b tl]; [exact Ha|]. rewrite join_with_cons2.
+  apply nolb_app; [exact Ha|]. apply nolb_app; [repeat constructor|apply IH, Ht].
+Qed.
+
+Lemma good_toks_nolb : forall tl, Forall good_tok tl -> Forall nolb tl.
+Proof. intros tl H. eapply Forall_impl; [|exact H]. intros a [_ Ha]. apply spacefree_nolb, Ha. Qed.
+
+Lemma Forall_firstn_ : forall (A : Type) (P : A -> Prop) n (l : list A), Forall P l -> Forall P (firstn n l).
+Proof.
+  intros A P. induction n as [|n IH]; intros l H; [constructor|]. destruct l as [|a l]; [constructor|].
+  inversion H; subst. cbn [firstn]. constructor; [assumption|apply IH; assumption].
+Qed.
+Lemma Forall_skipn_ : forall (A : Type) (P : A -> Prop) n (l : list A), Forall P l -> Forall P (skipn n l).
+Proof.
+  intros A P. induction n as [|n IH]; intros l H; [exact H|]. destruct l as [|a l]; [constructor|].
+  inversion H; subst. cbn [skipn]. apply IH; assumption.
+Qed.
+
+Section GWrapNolb.
+  Variables (limit chunk : nat) (p : text).
+  Hypothesis Hp : nolb p.
+  Lemma gwrap_nolb : forall f line, nolb line -> Forall nolb (gwrap limit chunk p f line).
+  Proof.
+    unfold gwrap. induction f as [|f IH]; intros line H.
+    - cbn [gchunks map]. constructor; [apply nolb_app; assumption|constructor].
+    - rewrite gchunks_S. destruct (Nat.leb (length line) limit).
+      + cbn [map]. constructor; [apply nolb_app; assumption|constructor].
+      + cbn [map]. constructor.
+        * apply nolb_app; [exact Hp|]. apply nolb_app; [apply Forall_firstn_, H|repeat constructor].
+        * apply IH. apply Forall_skipn_, H.
+  Qed.
+End GWrapNolb.
+
+Lemma prefix_nolb : nolb prefix.
+Proof. apply nolb_check. vm_compute. reflexivity. Qed.
+
+Lemma v30_line_nolb : forall line, nolb line -> Forall nolb (v30_line line).
+Proof. intros line H. unfold v30_line. rewrite wrap_gwrap. apply gwrap_nolb; [exact prefix_nolb|exact H]. Qed.
+
+Lemma atom_line_nolb : forall x, atom_ok x -> nolb (atom_line x).
+Proof.
+  intros x [Hs [Gx _] [Gy _] [Gz _]]. rewrite atom_line_join. apply nolb_join, good_toks_nolb.
+  apply atom_toks_good; try assumption. apply (sf_good _ (symbol_facts _ _ Hs)).
+Qed.
+
+Lemma bond_line_nolb : forall ib, nolb (bond_line ib).
+Proof. intro ib. rewrite bond_line_join. apply nolb_join, good_toks_nolb, bond_toks_good. Qed.
+
+Lemma counts_line_nolb : forall m, nolb (counts_line m).
+Proof.
+  intro m. unfold counts_line, spt.
+  repeat apply nolb_app; try (apply spacefree_nolb, text_of_N_good); apply nolb_check; vm_compute; reflexivity.
+Qed.
+
+Lemma v30_contents_nolb : forall m, Forall atom_ok (atoms m) -> Forall nolb (v30_contents m).
+Proof.
+  intros m Hok. unfold v30_contents. repeat (apply Forall_app; split).
+  - apply Forall_cons; [apply nolb_check; vm_compute; reflexivity|].
+    apply Forall_cons; [apply counts_line_nolb|].
+    apply Forall_cons; [apply nolb_check; vm_compute; reflexivity|apply Forall_nil].
+  - apply Forall_map. eapply Forall_impl; [|exact Hok]. apply atom_line_nolb.
+  - apply Forall_cons; [apply nolb_check; vm_compute; reflexivity|apply Forall_nil].
+  - destruct (bonds m); [constructor|]. repeat (apply Forall_app; split).
+    + apply Forall_cons; [apply nolb_check; vm_compute; reflexivity|apply Forall_nil].
+    + apply Forall_map, Forall_forall. intros ib _. apply bond_line_nolb.
+    + apply Forall_cons; [apply nolb_check; vm_compute; reflexivity|apply Forall_nil].
+  - apply Forall_cons; [apply nolb_check; vm_compute; reflexivity|apply Forall_nil].
+Qed.
+
+Lemma write_lines_nolb : forall line2 m,
+  nolb line2 -> Forall atom_ok (atoms m) -> Forall nolb (write_lines line2 m).
+Proof.
+  intros line2 m H2 Hok. rewrite write_lines_contents.
+  apply Forall_app; split; [|apply Forall_app; split].
+  - unfold header. apply Forall_cons; [constructor|]. apply Forall_cons; [exact H2|].
+    apply Forall_cons; [constructor|]. apply Forall_cons; [apply nolb_check; vm_compute; reflexivity|apply Forall_nil].
+  - apply Forall_flat_map. eapply Forall_impl; [|exact (v30_contents_nolb m Hok)]. apply v30_line_nolb.
+  - apply Forall_cons; [apply nolb_check; vm_compute; reflexivity|apply Forall_nil].
+Qed.
+
+(* splitlines *)
+Lemma is_linebreak_nl : is_linebreak nl = true.
+Proof. vm_compute. reflexivity. Qed.
+Lemma nl_not_cr : is_code 13%N nl = false.
+Proof. vm_compute. reflexivity. Qed.
+
+Lemma splitlines_aux_nolb : forall x cur r, nolb x ->
+  splitlines_aux cur (x ++ r) = splitlines_aux (rev x ++ cur) r.
+Proof.
+  induction x as [|c x IH]; intros cur r H; [reflexivity|]. inversion H as [|? ? Hc Hx]; subst.
+  cbn [app splitlines_aux rev]. rewrite Hc, (IH _ _ Hx), <- app_assoc. reflexivity.
+Qed.
+
+Lemma splitlines_aux_line : forall x cur r, nolb x ->
+  splitlines_aux cur (x ++ nl :: r) = (rev cur ++ x) :: splitlines_aux [] r.
+Proof.
+  intros x cur r H. rewrite (splitlines_aux_nolb x cur (nl :: r) H). cbn [splitlines_aux].
+  rewrite is_linebreak_nl, nl_not_cr, rev_app_distr, rev_involutive. cbn [andb].
+  destruct r; reflexivity.
+Qed.
+
+Lemma splitlines_aux_last : forall x, nolb x -> x <> [] -> splitlines_aux [] x = [x].
+Proof.
+  intros x H Hne. rewrite <- (app_nil_r x) at 1. rewrite (splitlines_aux_nolb x [] [] H).
+  cbn [splitlines_aux]. rewrite app_nil_r.
+  destruct (rev x) eqn:E.
+  - apply (f_equal (@rev ascii)) in E. rewrite rev_involutive in E. cbn in E. congruence.
+  - rewrite <- E, rev_involutive. reflexivity.
+Qed.
+
+Lemma splitlines_join : forall ls,
+  Forall nolb ls -> ls <> [] -> last ls [] <> [] -> splitlines (join_with [nl] ls) = ls.
+Proof.
+  unfold splitlines. induction ls as [|x ls IH]; intros H Hne Hlast; [congruence|].
+  inversion H as [|? ? Hx Hls]; subst. destruct ls as [|y ls].
+  - cbn [join_with]. apply splitlines_aux_last; [exact Hx|exact Hlast].
+  - rewrite join_with_cons2. cbn [app]. rewrite (splitlines_aux_line x [] _ Hx). cbn [rev app].
+    rewrite IH; [reflexivity|exact Hls|discriminate|exact Hlast].
+Qed.
+
+Lemma last_app_one : forall (A : Type) (l : list A) (x d : A), last (l ++ [x]) d = x.
+Proof. intros A l x d. induction l as [|a l IH]; [reflexivity|]. cbn [app]. destruct (l ++ [x]) eqn:E; [destruct l; discriminate E|exact IH]. Qed.
+
+Theorem splitlines_write_molfile : forall line2 m,
+  nolb line2 -> Forall atom_ok (atoms m) ->
+  splitlines (write_molfile line2 m) = write_lines line2 m.
+Proof.
+  intros line2 m H2 Hok. unfold write_molfile. apply splitlines_join.
+  - apply write_lines_nolb; assumption.
+  - unfold write_lines, header. discriminate.
+  - unfold write_lines. rewrite !app_assoc, last_app_one. discriminate.
+Qed.
+
+(* every line of the file text is at most 79 characters long: 80 with its newline *)
+Theorem write_molfile_line_length : forall line2 m,
+  nolb line2 -> length line2 <= max_line -> Forall atom_ok (atoms m) ->
+  Forall (fun l => length l <= max_line) (splitlines (write_molfile line2 m)).
+Proof.
+  intros line2 m H2 Hl Hok. rewrite splitlines_write_molfile by assumption. apply write_lines_length, Hl.
+Qed.
+
+(* the reader entry point on the written text: version dispatch, V3000 reader, then the graph *)
+Theorem read_molfile_write_molfile : forall line2 m,
+  nolb line2 -> continues line2 = false -> mol_ok m ->
+  V2000.read_molfile (write_molfile line2 m)
+  = graph_from_molecule (map expected_atom (atoms m)) (map expected_bond (bonds m)).
+Proof.
+  intros line2 m H2 Hc Hm. unfold V2000.read_molfile.
+  rewrite (splitlines_write_molfile line2 m H2 (mo_atoms _ Hm)). cbv zeta.
+  change (nth_tok 3 (write_lines line2 m)) with (ok (t "  0  0  0     0  0            999 V3000")).
+  cbn [bind ok].
+  replace (text_eqb (V2000.last_text (split_on (is_code 32%N) (rstrip (t "  0  0  0     0  0            999 V3000"))))
+                    (t "V3000")) with true by (vm_compute; reflexivity).
+  rewrite (write_read_roundtrip line2 m Hc Hm). reflexivity.
+Qed.
+
+(* ------------------------------------------------------------------------------------ *)
+(* 14. non-vacuity of the round trip: a molecule whose first atom line is wrapped        *)
+(* ------------------------------------------------------------------------------------ *)
+
+Definition ex_long : text := t "-123456789012345678901234567890.123456".
+Definition ex_mol : mol rpay (option Z) :=
+  mkMol [mkAtom 0 6 (Some 13%Z) None 0 (mkRpay (t "C") (Some (-1)%Z) ex_long ex_long ex_long);
+         mkAtom 1 8 None (Some 2%Z) 0 (mkRpay (t "O") (Some 20%Z) (t "0.000000") (t "-1.500000") (t "0.000000"));
+         mkAtom 2 1 (Some 0%Z) (Some 7%Z) 0 (mkRpay (t "H") None (t "0.000000") (t "-1.500000") (t "0.000000"))]
+        [(0%N, 1%N, Some 2%Z); (2%N, 1%N, None)].
+Definition ex_hdr : text := t "  TUCAN 0101250000 3D".
+
+Lemma coord_tok_check : forall s,
+  nonempty s && forallb (fun c => negb (is_space c)) s && py_float_ok s = true -> coord_tok s.
+Proof.
+  intros s H. apply andb_true_iff in H. destruct H as [H Hf]. apply andb_true_iff in H. destruct H as [Hn Hs].
+  split; [split|exact Hf].
+  - destruct s; [discriminate Hn|discriminate].
+  - apply Forall_forall. intros c Hc. rewrite forallb_forall in Hs. apply negb_true_iff, Hs, Hc.
+Qed.
+
+Example ex_mol_ok : mol_ok ex_mol.
+Proof.
+  constructor.
+  - repeat (apply Forall_cons; [constructor; [reflexivity|apply coord_tok_check; vm_compute; reflexivity..]|]).
+    apply Forall_nil.
+  - cbn. repeat (apply NoDup_cons; [cbn; intuition discriminate|]). apply NoDup_nil.
+  - cbn. repeat (apply NoDup_cons; [cbn; intuition discriminate|]). apply NoDup_nil.
+  - cbn. repeat (apply Forall_cons; [cbn; intuition|]). apply Forall_nil.
+Qed.
+
+Example ex_mol_wrapped : map (@length ascii) (write_lines ex_hdr ex_mol)
+  = [0; 21; 0; 39; 17; 23; 17; 79; 73; 46; 40; 15; 17; 14; 14; 15; 15; 6].
+Proof. vm_compute. reflexivity. Qed.
+
+Example ex_mol_roundtrip :
+  read_v3000 (write_lines ex_hdr ex_mol) = ok (map expected_atom (atoms ex_mol), map expected_bond (bonds ex_mol)).
+Proof. apply write_read_roundtrip; [vm_compute; reflexivity|exact ex_mol_ok]. Qed.
+
+(* charge 20 is not written, mass 0 and radical 7 neither: the read-back molecule carries None there *)
+Example ex_mol_dropped :
+  map (fun a => (r_chg a, r_mass a, r_rad a)) (map expected_atom (atoms ex_mol))
+  = [(Some (-1)%Z, Some 13%Z, None); (None, None, Some 2%Z); (None, None, None)].
+Proof. vm_compute. reflexivity. Qed.
+
+(* mo_bonds is needed: the reader keys bonds by the ordered pair, the later line wins in place *)
+Example ex_duplicate_bond :
+  read_v3000 (write_lines ex_hdr (mkMol (atoms ex_mol) [(0%N, 1%N, Some 2%Z); (0%N, 1%N, Some 3%Z)]))
+  = ok (map expected_atom (atoms ex_mol), [(0%Z, 1%Z, 3%Z)]).
+Proof. vm_compute. reflexivity. Qed.
